@@ -44,6 +44,17 @@ func c01BuildRegs(c *mon.Ctx, n int) {
 		r.SetConfiguration(mustConfig(cd.Text))
 		c01Regs = append(c01Regs, regCfg{r, "filter{" + describeFilter(o) + "} cfg=" + cd.Label})
 	}
+	// whatever a REJECTED Filter call hands back next to its error (nil today, which the entry points take as "the
+	// global registry"): a caller that goes on with it must still get a normal return
+	for _, bad := range []lint.FilterOptions{
+		{IncludeNames: []string{"e_verif_no_such_lint"}},
+		{ExcludeNames: []string{"e_verif_no_such_lint"}},
+		{NameFilter: regexpAll, IncludeNames: []string{Inv[0].Name}},
+	} {
+		if r, err := g.Filter(bad); err != nil {
+			c01Regs = append(c01Regs, regCfg{r, "returned by a rejected Filter{" + describeFilter(bad) + "}"})
+		}
+	}
 	// fixed special registries: zero lints, one lint of each kind
 	zero, _ := g.Filter(lint.FilterOptions{IncludeSources: lint.SourceList{lint.UnknownLintSource}})
 	c01Regs = append(c01Regs, regCfg{zero, "zero-lints"})
